@@ -47,8 +47,10 @@ theorem reported_position (st : Asm.St) (pos : Nat) (n : String) (h : firstUndef
   | none => rw [hmin] at h; cases h
   | some p =>
     rw [hmin] at h
-    have := List.find?_some h
-    simp at this; rw [this]
+    simp only at h
+    split at h
+    · cases h
+    · cases h; rfl
 
 theorem report_order_invariant (u v : List (Nat × String)) (f : String → Bool) (h : u.Perm v) :
     minPos u f = minPos v f := by
@@ -66,6 +68,98 @@ theorem report_order_invariant (u v : List (Nat × String)) (f : String → Bool
   | some x =>
     obtain ⟨hx, hle⟩ := List.min?_eq_some_iff.mp ha
     exact (List.min?_eq_some_iff.mpr ⟨hp.mem_iff.mp hx, fun y hy => hle y (hp.mem_iff.mpr hy)⟩).symm
+
+/-! the NAME reported at that position does not depend on the order of the recorded set either -/
+
+theorem foldl_min_spec (l : List String) (a : String) :
+    let m := l.foldl (fun m x => if x < m then x else m) a
+    (m = a ∨ m ∈ l) ∧ m ≤ a ∧ ∀ x ∈ l, m ≤ x := by
+  induction l generalizing a with
+  | nil => exact ⟨Or.inl rfl, Std.le_refl a, fun _ h => by cases h⟩
+  | cons b l ih =>
+    simp only [List.foldl_cons]
+    by_cases hb : b < a
+    · rw [if_pos hb]
+      obtain ⟨h1, h2, h3⟩ := ih b
+      refine ⟨?_, Std.le_trans h2 (Std.le_of_lt hb), ?_⟩
+      · rcases h1 with h | h
+        · exact Or.inr (by rw [h]; simp)
+        · exact Or.inr (by simp [h])
+      · intro x hx
+        rcases List.mem_cons.mp hx with e | e
+        · rw [e]; exact h2
+        · exact h3 x e
+    · rw [if_neg hb]
+      obtain ⟨h1, h2, h3⟩ := ih a
+      refine ⟨?_, h2, ?_⟩
+      · rcases h1 with h | h
+        · exact Or.inl h
+        · exact Or.inr (by simp [h])
+      · intro x hx
+        rcases List.mem_cons.mp hx with e | e
+        · rw [e]; exact Std.le_trans h2 (Std.not_lt.mp hb)
+        · exact h3 x e
+
+theorem minName_spec (l : List String) (m : String) (h : minName l = some m) : m ∈ l ∧ ∀ x ∈ l, m ≤ x := by
+  cases l with
+  | nil => cases h
+  | cons a as =>
+    simp only [minName, Option.some.injEq] at h
+    obtain ⟨h1, h2, h3⟩ := foldl_min_spec as a
+    rw [h] at h1 h2 h3
+    refine ⟨?_, ?_⟩
+    · rcases h1 with e | e
+      · simp [e]
+      · simp [e]
+    · intro x hx
+      rcases List.mem_cons.mp hx with e | e
+      · rw [e]; exact h2
+      · exact h3 x e
+
+theorem minName_perm (u v : List String) (h : u.Perm v) : minName u = minName v := by
+  cases hu : minName u with
+  | none =>
+    cases u with
+    | cons a as => simp [minName] at hu
+    | nil => rw [← h.nil_eq]; rfl
+  | some m =>
+    cases hv : minName v with
+    | none =>
+      cases v with
+      | cons a as => simp [minName] at hv
+      | nil => rw [h.eq_nil] at hu; cases hu
+    | some m' =>
+      obtain ⟨hm, hle⟩ := minName_spec u m hu
+      obtain ⟨hm', hle'⟩ := minName_spec v m' hv
+      have h1 : m ≤ m' := hle m' (h.mem_iff.mpr hm')
+      have h2 : m' ≤ m := hle' m (h.mem_iff.mp hm)
+      rw [Std.le_antisymm h1 h2]
+
+/-- the pair the driver reports, as a function of the recorded SET: any two orders of the same
+    pairs (the iteration order of the hash set) give the same (position, name) -/
+def reportedOf (und : List (Nat × String)) (f : String → Bool) : Option (Nat × String) :=
+  match minPos und f with
+  | none => none
+  | some p => (minName (((und.filter fun q => f q.2).filter (·.1 == p)).map (·.2))).map fun n => (p, n)
+
+theorem reported_pair_invariant (u v : List (Nat × String)) (f : String → Bool) (h : u.Perm v) :
+    reportedOf u f = reportedOf v f := by
+  unfold reportedOf
+  rw [report_order_invariant u v f h]
+  cases minPos v f with
+  | none => rfl
+  | some p =>
+    simp only
+    rw [minName_perm _ _ (((h.filter _).filter _).map _)]
+
+theorem firstUndefined_eq_reportedOf (st : Asm.St) :
+    firstUndefined st = reportedOf st.undefined (fun l => (st.labels.lookup l).isNone) := by
+  unfold firstUndefined reportedOf minPos stillUndefined
+  cases ((st.undefined.filter fun p => (st.labels.lookup p.2).isNone).map (·.1)).min? with
+  | none => rfl
+  | some p =>
+    simp only
+    cases minName (((st.undefined.filter fun p => (st.labels.lookup p.2).isNone).filter (·.1 == p)).map (·.2)) <;> rfl
 
 theorem run_is_function (src : String) (stdin : List String) (i : Bool) (fuel : Nat) :
     ∀ r₁ r₂, r₁ = runCLI src stdin i fuel → r₂ = runCLI src stdin i fuel → r₁.stdout = r₂.stdout ∧ r₁.exit = r₂.exit ∧ r₁.trace = r₂.trace := by
